@@ -3,6 +3,7 @@ import PhysisModel.Proofs.C18Fmt
 import PhysisModel.Proofs.C18Dat
 import PhysisModel.Proofs.C18Stm
 import PhysisModel.Proofs.C18Avfx
+import PhysisModel.Proofs.C18Lgb
 /-!
 # C18 — damaged game data is rejected without crashing
 
@@ -165,5 +166,19 @@ theorem c18_avfx_unfixed_witness :
   ⟨faults_of_isFault (by decide), faults_of_isFault (by decide), faults_of_isFault (by decide)⟩
 example : (C18Avfx.fromExisting
     [0x58, 0x46, 0x56, 0x41, 12, 0, 0, 0, 0x72, 0x65, 0x56, 0x00, 4, 0, 0, 0, 1, 0, 0, 0]).isOk = true := by decide
+
+/-- `LayerGroup::from_existing` (repaired by `fixes/C18-65`, `C18-68`, `C18-69`): every header, heap
+string, referenced list, offset table and instance object (all 29 variants) for every byte string;
+the offset tables are the only input-sized requests and are checked against the remaining input -/
+theorem c18_lgb_total (b : Bytes) : ¬ faults (C18Lgb.fromExisting b) := (C18Lgb.fromExisting_good b).1
+theorem c18_lgb_alloc (b : Bytes) : (C18Lgb.fromExisting b).peak ≤ 64 * b.length + 16777216 :=
+  (C18Lgb.fromExisting_good b).2
+
+/-- non-vacuity: the repository's `resources/tests/empty_planlive.lgb` is accepted, its first 44 bytes
+(chunk name without terminator) are rejected -/
+example : (C18Lgb.fromExisting [76, 71, 66, 49, 45, 0, 0, 0, 1, 0, 0, 0, 76, 71, 80, 49, 24, 0, 0, 0, 5, 1, 0, 0,
+    16, 0, 0, 0, 16, 0, 0, 0, 0, 0, 0, 0, 80, 108, 97, 110, 76, 105, 118, 101, 0]).isOk = true := by decide
+example : (C18Lgb.fromExisting [76, 71, 66, 49, 45, 0, 0, 0, 1, 0, 0, 0, 76, 71, 80, 49, 24, 0, 0, 0, 5, 1, 0, 0,
+    16, 0, 0, 0, 16, 0, 0, 0, 0, 0, 0, 0, 80, 108, 97, 110, 76, 105, 118, 101]).isOk = false := by decide
 
 end Physis.C18
